@@ -97,6 +97,47 @@ func checkGuardedTable(fn *ssa.Function, sp tableSpec) []tableFinding {
 				st := states[ins]
 				out = append(out, tableFinding{fmt.Sprintf("update#%d of %s under the write lock", nUpd, sp.tableName), ins, st == eng.LockExcl,
 					"the table is written while its lock is " + st.String()})
+				// registering a fresh record is check-and-insert in ONE exclusive hold: between the
+				// Lock() that protects the insert and the insert the same key is looked up, and the
+				// insert is conditional on that lookup. An unconditional insert replaces a record
+				// that a racing first report has just registered and counted on.
+				if _, fresh := n.Value.(*ssa.Alloc); fresh {
+					isLookup := func(i ssa.Instruction) bool {
+						l, ok := i.(*ssa.Lookup)
+						return ok && sp.isTable(l.X) && (l.Index == n.Key || sameLoad(l.Index, n.Key))
+					}
+					okCheck := true
+					nLocks := 0
+					eng.Instrs(fn, func(li ssa.Instruction) {
+						lc, isCall := li.(*ssa.Call)
+						if !isCall || !eng.MethodNameIs(lc, "Lock") || !sp.isMutex(eng.Receiver(lc)) {
+							return
+						}
+						isUnlock := func(i ssa.Instruction) bool {
+							uc, ok := i.(*ssa.Call)
+							return ok && eng.MethodNameIs(uc, "Unlock") && sp.isMutex(eng.Receiver(uc))
+						}
+						// does this hold reach the insert at all?
+						if eng.ReachAfter(lc, eng.PathQuery{Target: func(i ssa.Instruction) bool { return i == ins }, Avoid: isUnlock}) == nil {
+							return
+						}
+						nLocks++
+						if eng.ReachAfter(lc, eng.PathQuery{Target: func(i ssa.Instruction) bool { return i == ins }, Avoid: func(i ssa.Instruction) bool { return isUnlock(i) || isLookup(i) }}) != nil {
+							okCheck = false
+						}
+					})
+					// conditional on the lookup: some path from the lookup leaves the hold without inserting
+					cond := false
+					eng.Instrs(fn, func(li ssa.Instruction) {
+						if isLookup(li) && states[li] == eng.LockExcl {
+							if eng.ReachAfter(li, eng.PathQuery{Target: eng.IsExit, Avoid: func(i ssa.Instruction) bool { return i == ins }}) != nil {
+								cond = true
+							}
+						}
+					})
+					out = append(out, tableFinding{fmt.Sprintf("insert#%d into %s is check-and-insert in one exclusive hold", nUpd, sp.tableName), ins, nLocks > 0 && okCheck && cond,
+						"a fresh record is inserted without looking the key up again after taking the write lock (or regardless of that lookup): two racing first reports of one instance each insert, and the count booked on the replaced record stays in the total forever"})
+				}
 			}
 		case *ssa.Call:
 			if isBuiltin(n, "delete") && sp.isTable(n.Call.Args[0]) {
@@ -631,6 +672,21 @@ func (t *T) badWrite(k string) {
 	t.m[k] = &rec{}
 	t.mu.RUnlock()
 }
+func (t *T) badInsert(k string) int {
+	t.mu.RLock()
+	r, ok := t.m[k]
+	if !ok {
+		t.mu.RUnlock()
+		t.mu.Lock()
+		t.m[k] = &rec{}
+		t.mu.Unlock()
+		t.mu.RLock()
+		r, ok = t.m[k]
+		if !ok { t.mu.RUnlock(); return 0 }
+	}
+	defer t.mu.RUnlock()
+	return r.n
+}
 `
 
 func c08Fixtures(c *eng.Ctx) {
@@ -646,7 +702,7 @@ func c08Fixtures(c *eng.Ctx) {
 		tableName: "m",
 	}
 	// the fixture mutex is fx.Mu, not sync.RWMutex: adapt through a wrapper spec
-	for name, want := range map[string]bool{"bad": false, "good": true, "badWrite": false} {
+	for name, want := range map[string]bool{"bad": false, "good": true, "badWrite": false, "badInsert": false} {
 		fn := eng.FxMethod(p, "T", name)
 		all := true
 		n := 0
